@@ -25,6 +25,7 @@ func runC18(c *Ctx) {
 	c.Rule("C18.O3", "E4", "go p.start() preceded by Add(1); start defers Done first and the descriptor closes before the IO loop; newPoller closes opened descriptors on error exits; nbhttp.listen pairs Add/deferred Done", 4)
 	c.Rule("C18.O4", "E5", "nbhttp.Stop: shutdown flag, listeners, then core Stop; stopListeners stops the mux in mixed mode; the stop hook stops both pools and replaces the executors; Shutdown closes tracked connections before delegating", 4)
 	c.Rule("C18.O5", "E4", "lmux.Stop closes each underlying listener and the close channel; ChanListener.Accept selects on the close channel", 2)
+	c.Rule("C18.O11", "E4", "nbhttp Shutdown's wait loop closes the tracked connections on every iteration, not only before the loop: connections that appear in the tables after the first sweep are closed too", 1)
 	c.Rule("C18.O7", "E4", "the blocking readers' deferred clean-up removes the connection from the tracked set (delete(engine.conns, key) under Engine.mux), reports the close and releases the load slot on every path: Shutdown waits for the set to drain", 2)
 	c.Rule("C18.O8", "E4", "every torn-down connection reaches the close notification that releases the connection WaitGroup (same rule as C03.O9): Stop waits on it", 1)
 	c.Rule("C18.O9", "E5", "the listener mux's close channel is created once, in its constructor: the channel listeners copy it when they are made, so a later re-assignment leaves them waiting on a channel nobody closes", 1)
@@ -375,6 +376,30 @@ func runC18(c *Ctx) {
 			}
 		}
 		c.Cond(ok, "C18.O4", fnKey(c.P, sh, "close connections before delegating"), c.FnPos(sh), "closeAllConns precedes the core Shutdown", "Shutdown delegates to the core engine without closing the tracked connections first")
+		// O11: the wait loop sweeps on every iteration
+		var waits []ssa.Instruction
+		for _, b := range sh.Blocks {
+			for _, in := range b.Instrs {
+				if _, isSel := in.(*ssa.Select); isSel && fi.InLoop(in) {
+					waits = append(waits, in)
+				}
+			}
+		}
+		if len(waits) == 0 {
+			c.Unres("C18.O11", fnKey(c.P, sh, "wait loop sweeps"), "no select in a loop found in Shutdown")
+		} else {
+			bad := ""
+			for _, w := range waits {
+				vis, _ := fi.Reach([]ssa.Instruction{w}, func(in ssa.Instruction) bool {
+					cs, ok := ir.AsCall(in)
+					return ok && cs.Kind == "call" && c.P.CalleeName(cs.Common) == "(*nbhttp.Engine).closeAllConns"
+				})
+				if vis[w] {
+					bad = "the wait at " + c.Pos(w) + " is repeated without closing the tracked connections again: a connection registered after the first sweep (a dial that completes, a connection handed to the engine) is never closed and keeps the tables non-empty, so Shutdown returns only when its context expires"
+				}
+			}
+			c.Cond(bad == "", "C18.O11", fnKey(c.P, sh, "wait loop sweeps"), c.Pos(waits[0]), "every iteration of the wait loop passes closeAllConns", bad)
+		}
 	}
 
 	// ------------------------------------------------------------------ O5
